@@ -52,6 +52,7 @@ import (
 	"fmt"
 	"math"
 	"sort"
+	"strconv"
 	"strings"
 	"testing/synctest"
 	"time"
@@ -133,6 +134,11 @@ type c40Scenario struct {
 	Pool   [][]string `json:"pool"` // endpoint -> addresses (all distinct)
 	Steps  []c40Step  `json:"steps"`
 	TailNs int64      `json:"tail_ns"`
+	// StrictConverse (never generated): also assert the converse the statement
+	// does not claim -- criteria met with certainty, enforcement 100, room under
+	// max_ejection_percent => ejected. Used to keep replayable evidence of
+	// grpc-go's ejected-endpoint counter leak (oracle ejection_suppressed).
+	StrictConverse bool `json:"strict_converse,omitempty"`
 }
 
 func (s *c40Scenario) SchedP() *core.Sched { return &s.Sched }
@@ -282,6 +288,7 @@ func genC40(seed uint64, tier string) *c40Scenario {
 		}
 		return false
 	}
+	var savedSR *c40Cfg
 	maxSteps := 14
 	if tier == "thorough" {
 		maxSteps = 40
@@ -309,9 +316,14 @@ func genC40(seed uint64, tier string) *c40Scenario {
 		case x < 95:
 			st.WaitNs = int64(r.Range(1, 8))*iv + int64(r.Intn(3))*iv/3
 		default:
-			st.WaitNs = int64(r.Range(10, 400)) * int64(time.Second)
+			st.WaitNs = int64(r.Range(9, 30)) * iv
 		}
 		if i == 0 {
+			st.Cfg = clone(cur)
+		} else if cur.noop() && savedSR != nil && r.Chance(1, 2) {
+			// back from the no-op config to the algorithms used before it
+			cur.SR, cur.FP = savedSR.SR, savedSR.FP
+			savedSR = nil
 			st.Cfg = clone(cur)
 		} else if r.Chance(1, 4) {
 			switch x := r.Intn(100); {
@@ -331,6 +343,9 @@ func genC40(seed uint64, tier string) *c40Scenario {
 					}
 				}
 			case x < 52: // no-op config
+				if !cur.noop() {
+					savedSR = clone(cur)
+				}
 				cur.SR, cur.FP = nil, nil
 			case x < 70: // new knobs
 				eps := cur.Eps
@@ -348,6 +363,7 @@ func genC40(seed uint64, tier string) *c40Scenario {
 			st.Cfg = clone(cur)
 		}
 		// calls
+		atSweep := st.WaitKind == "sweep" && st.OffNs == 0
 		if len(cur.Eps) > 0 && r.Chance(9, 10) {
 			vol := 1
 			if cur.SR != nil {
@@ -357,7 +373,7 @@ func genC40(seed uint64, tier string) *c40Scenario {
 				vol = max(vol, int(cur.FP.ReqVol))
 			}
 			for _, ei := range cur.Eps {
-				if r.Chance(1, 6) {
+				if r.Chance(1, 6) || atSweep && r.Chance(2, 3) {
 					continue
 				}
 				k := vol + r.Intn(3) - r.Intn(2)*r.Intn(vol+1)
@@ -365,6 +381,9 @@ func genC40(seed uint64, tier string) *c40Scenario {
 					continue
 				}
 				c := c40Call{Ep: ei, Addr: r.Intn(len(s.Pool[ei]))}
+				if atSweep {
+					k = min(k, 2)
+				}
 				for ; k > 0; k-- {
 					if r.Intn(8) < bad[ei] {
 						c.Fail++
@@ -372,11 +391,9 @@ func genC40(seed uint64, tier string) *c40Scenario {
 						c.Ok++
 					}
 				}
-				if racy > 0 && r.Intn(12) < racy {
+				if racy > 0 && r.Intn(16) < racy {
 					c.DoneAtSweep = true
-					if c.Ok+c.Fail > 3 {
-						c.Ok, c.Fail = min(c.Ok, 2), min(c.Fail, 2)
-					}
+					c.Ok, c.Fail = min(c.Ok, 1+r.Intn(2)), min(c.Fail, 1+r.Intn(2))
 				}
 				st.Calls = append(st.Calls, c)
 			}
@@ -394,7 +411,7 @@ func genC40(seed uint64, tier string) *c40Scenario {
 		}
 		s.Steps = append(s.Steps, st)
 	}
-	s.TailNs = int64(core.Pick(r, 0, 1, 3, 30)) * cur.IntervalMs * int64(time.Millisecond)
+	s.TailNs = int64(core.Pick(r, 0, 1, 3, 12)) * cur.IntervalMs * int64(time.Millisecond)
 	return s
 }
 
@@ -727,10 +744,10 @@ func (st *c40Stub) publish() {
 // ---------------------------------------------------------------- model
 
 type c40Done struct {
-	t       int64
-	inc     int
-	ok      bool
-	counted int // 1 counted, 0 not (no-op picker), -1 unknown
+	t   int64
+	inc int
+	ok  bool
+	pi  int // index of the parent picker the call went through (h.pickers[pi]: 1 counted, 0 not counted (no-op picker), -1 unknown)
 }
 
 type c40EpState struct {
@@ -771,13 +788,30 @@ func (w *c40W) keys() []string {
 }
 
 func (w *c40W) sig() string {
-	var sb strings.Builder
-	fmt.Fprintf(&sb, "%d/%d/%d/%d", w.cfgIdx, w.timerStart, w.nextFire, w.lastSwap)
+	b := make([]byte, 0, 64+48*len(w.eps))
+	b = strconv.AppendInt(b, int64(w.cfgIdx), 10)
+	b = append(b, '/')
+	b = strconv.AppendInt(b, w.timerStart, 10)
+	b = append(b, '/')
+	b = strconv.AppendInt(b, w.nextFire, 10)
+	b = append(b, '/')
+	b = strconv.AppendInt(b, w.lastSwap, 10)
 	for _, k := range w.keys() {
 		s := w.eps[k]
-		fmt.Fprintf(&sb, ";%s:%d:%v:%d:%d", k, s.inc, s.ejected, s.ts, s.mult)
+		b = append(b, ';')
+		b = append(b, k...)
+		b = append(b, ':')
+		b = strconv.AppendInt(b, int64(s.inc), 10)
+		if s.ejected {
+			b = append(b, 'E')
+		} else {
+			b = append(b, 'u')
+		}
+		b = strconv.AppendInt(b, s.ts, 10)
+		b = append(b, ':')
+		b = strconv.AppendInt(b, s.mult, 10)
 	}
-	return sb.String()
+	return string(b)
 }
 
 type c40Fail struct{ oracle, msg string }
@@ -811,6 +845,8 @@ type c40H struct {
 
 	worlds      []*c40W
 	dead        bool // a violation was reported or the model gave up: no further judging
+	giveUp      bool // set by sweep: too much uncertainty to enumerate
+	infoOK      bool // sweep may evaluate the informational missed_ejection probes (unambiguous instant)
 	lastProc    int64
 	lastCfgT    int64
 	callers     int
@@ -869,10 +905,11 @@ func (h *c40H) counts(w *c40W, t int64) (map[int]*c40Cnt, int) {
 			break
 		}
 		c := byInc[d.inc]
-		if c == nil || d.counted == 0 || d.t > t {
+		counted := h.pickers[d.pi]
+		if c == nil || counted == 0 || d.t > t {
 			continue
 		}
-		certain := d.counted == 1 && d.t > w.lastSwap && d.t < t
+		certain := counted == 1 && d.t > w.lastSwap && d.t < t
 		switch {
 		case certain && d.ok:
 			c.s++
@@ -894,10 +931,12 @@ type c40Elig struct{ sr, fp, srStrict, fpStrict bool }
 // c40Eval is the A50 evaluation of one interval: which endpoints meet which
 // criterion. "possibly" versions include the borderline (float rounding /
 // equality) cases, "strict" versions exclude them.
-func c40Eval(cfg *c40Cfg, keys []string, s, f []int) []c40Elig {
-	out := make([]c40Elig, len(keys))
+func c40Eval(cfg *c40Cfg, keys []string, s, f []int, out []c40Elig, idx []int) []c40Elig {
+	for i := range out {
+		out[i] = c40Elig{}
+	}
+	idx = idx[:0]
 	if cfg.SR != nil {
-		var idx []int
 		for i := range keys {
 			if uint32(s[i]+f[i]) >= cfg.SR.ReqVol {
 				idx = append(idx, i)
@@ -989,24 +1028,26 @@ func (h *c40H) sweep(w *c40W, t int64, obs map[string]bool, blind bool) ([]*c40W
 	if !cfg.noop() {
 		s, f := make([]int, n), make([]int, n)
 		combos := 1
+		limit := max(512, 8192/max(1, len(h.worlds)))
 		for _, k := range keys {
 			c := byInc[w.eps[k].inc]
 			combos *= (c.su + 1) * (c.fu + 1)
-			if combos > 4096 {
+			if combos > limit {
 				break
 			}
 		}
-		if combos > 4096 {
+		if combos > limit {
+			// Too many calls raced with this sweep to enumerate what was counted:
+			// nothing can be said about this sweep or, reliably, about what follows.
 			h.e.Probe("too_many_uncertain_calls")
-			explained = true
-			for i := range poss {
-				poss[i] = acc{any: true, both: cfg.SR != nil && cfg.FP != nil}
-			}
+			h.giveUp = true
+			return nil, nil
 		} else {
+			elBuf, idxBuf := make([]c40Elig, n), make([]int, 0, n)
 			var rec func(i int)
 			rec = func(i int) {
 				if i == n {
-					el := c40Eval(cfg, keys, s, f)
+					el := c40Eval(cfg, keys, s, f, elBuf, idxBuf)
 					ok := true
 					for _, j := range newEj {
 						if !(el[j].sr && cfg.SR.Enf > 0) && !(el[j].fp && cfg.FP.Enf > 0) {
@@ -1073,6 +1114,10 @@ func (h *c40H) sweep(w *c40W, t int64, obs map[string]bool, blind bool) ([]*c40W
 	// Build successor worlds endpoint by endpoint.
 	outs := []*c40W{base}
 	fork := func(k string, alts []c40EpState) {
+		if len(outs)*len(alts) > 64 {
+			h.giveUp = true
+			alts = alts[:1]
+		}
 		var next []*c40W
 		for _, o := range outs {
 			for ai, a := range alts {
@@ -1104,11 +1149,20 @@ func (h *c40H) sweep(w *c40W, t int64, obs map[string]bool, blind bool) ([]*c40W
 			}
 			fork(k, alts)
 		case !st.ejected: // stays un-ejected (or not observable: nothing can be said, assume it stays)
-			if known && !o && poss[i].strictAll && len(h.worlds) == 1 && unc == 0 {
+			if known && !o && poss[i].strictAll && h.infoOK && unc == 0 {
 				// informational: A50 would have ejected this endpoint unless max_ejection_percent forbade it
 				if uint64(E0+len(newEj))*100 < uint64(cfg.MaxPct)*uint64(n) {
 					h.e.Probe("missed_ejection")
-					if w.removedEj+w.multiEj > 0 {
+					if h.s.StrictConverse {
+						h.e.Violate("ejection_suppressed", "sweep at %d: %s meets an enforced (100%%) criterion of %s with %d of %d endpoints ejected, yet was not ejected; endpoints removed while ejected so far: %d, multiple ejections of one endpoint so far: %d", t, k, c40CfgStr(cfg), E0+len(newEj), n, w.removedEj, w.multiEj)
+					}
+					leak := w.removedEj+w.multiEj > 0
+					for j, k2 := range keys { // an endpoint ejected twice in this very sweep inflates grpc-go's counter as well
+						if (w.eps[k2].ejected && poss[j].any) || (!w.eps[k2].ejected && obs[k2] && poss[j].both) {
+							leak = true
+						}
+					}
+					if leak {
 						h.e.Probe("missed_ejection_after_count_leak")
 					} else {
 						h.e.Probe("missed_ejection_unexplained")
@@ -1208,6 +1262,45 @@ func (h *c40H) applyCfg(w *c40W, cfgIdx int, t int64) *c40W {
 	return o
 }
 
+// c40Intermediate lists the ejected sets that may hold between two sweeps
+// made at the same instant, given the state before (w) and the observation
+// after both. An endpoint ejected by the first sweep cannot be un-ejected by
+// the second (no time passes), so: not ejected before and after -> not ejected
+// in between; ejected before, not after -> un-ejected by the first; otherwise
+// either.
+func c40Intermediate(w *c40W, obs map[string]bool) []map[string]bool {
+	base := map[string]bool{}
+	var free []string
+	for _, k := range w.keys() {
+		fin, known := obs[k]
+		if !known {
+			continue
+		}
+		pre := w.eps[k].ejected
+		switch {
+		case !fin:
+			base[k] = false
+		case len(free) < 6:
+			free = append(free, k)
+			base[k] = pre
+		default:
+			base[k] = fin
+		}
+	}
+	out := []map[string]bool{}
+	for bits := 0; bits < 1<<len(free); bits++ {
+		m := make(map[string]bool, len(base))
+		for k, v := range base {
+			m[k] = v
+		}
+		for i, k := range free {
+			m[k] = bits&(1<<i) != 0
+		}
+		out = append(out, m)
+	}
+	return out
+}
+
 // matches: world o agrees with the observation (used when no sweep follows).
 func (h *c40H) matches(o *c40W, obs map[string]bool, prev *c40W, afterNoop bool) *c40Fail {
 	for _, k := range o.keys() {
@@ -1284,15 +1377,7 @@ func (h *c40H) process(t int64, cfgIdx int) {
 	}
 	var next []*c40W
 	var fails []*c40Fail
-	seen := map[string]bool{}
-	add := func(ws ...*c40W) {
-		for _, w := range ws {
-			if s := w.sig(); !seen[s] {
-				seen[s] = true
-				next = append(next, w)
-			}
-		}
-	}
+	add := func(ws ...*c40W) { next = append(next, ws...) }
 	anySweep := false
 	for _, w := range h.worlds {
 		due := w.nextFire == t
@@ -1307,7 +1392,9 @@ func (h *c40H) process(t int64, cfgIdx int) {
 				add(w)
 			}
 		case cfgIdx < 0:
+			h.infoOK = len(h.worlds) == 1
 			ws, f := h.sweep(w, t, obs, false)
+			h.infoOK = false
 			if f != nil {
 				fails = append(fails, f)
 			}
@@ -1317,6 +1404,21 @@ func (h *c40H) process(t int64, cfgIdx int) {
 			// [C] or, when the new config leaves the timer due right now, [C, S]
 			tryCS := func(w0 *c40W, sweeps int) {
 				ws := []*c40W{h.applyCfg(w0, cfgIdx, t)}
+				if sweeps == 2 {
+					// Two sweeps at one instant: what the first one left behind is
+					// not observable; try every intermediate ejected set from which
+					// the second sweep can reach the observation.
+					var nx []*c40W
+					for _, m := range c40Intermediate(ws[0], obs) {
+						r, f := h.sweep(ws[0], t, m, false)
+						if f != nil {
+							fails = append(fails, f)
+						}
+						nx = append(nx, r...)
+					}
+					ws = nx
+					sweeps = 1
+				}
 				for i := 0; i < sweeps; i++ {
 					var nx []*c40W
 					for _, x := range ws {
@@ -1378,6 +1480,11 @@ func (h *c40H) process(t int64, cfgIdx int) {
 			}
 		}
 	}
+	if h.giveUp {
+		e.Probe("model_gave_up")
+		h.dead = true
+		return
+	}
 	if anySweep {
 		e.Probe("sweeps_judged")
 	}
@@ -1393,15 +1500,46 @@ func (h *c40H) process(t int64, cfgIdx int) {
 		h.dead = true
 		return
 	}
+	if len(next) > 1 { // drop duplicates
+		seen := map[string]*c40W{}
+		uniq := next[:0]
+		for _, w := range next {
+			sg := w.sig()
+			if first := seen[sg]; first != nil {
+				// informational counters: remember that a count leak was possible
+				first.removedEj, first.multiEj = max(first.removedEj, w.removedEj), max(first.multiEj, w.multiEj)
+				continue
+			}
+			seen[sg] = w
+			uniq = append(uniq, w)
+		}
+		next = uniq
+	}
 	if len(next) > 1 {
 		e.Probe("several_possible_worlds")
 	}
-	if len(next) > 48 {
-		e.Probe("model_gave_up_too_many_worlds")
+	if len(next) > 24 {
+		e.Probe("model_gave_up")
 		h.dead = true
 		return
 	}
-	_ = nEnf
+	// Informational bookkeeping only: more enforced-ejection metric events than
+	// ejections visible afterwards means an endpoint was ejected more than once,
+	// or ejected and removed by the resolver at this instant; either inflates
+	// grpc-go's ejected-endpoint counter (see the missed_ejection probes).
+	if nEnf > 0 {
+		vis := 0
+		for _, st := range next[0].eps {
+			if st.ejected && st.ts == t {
+				vis++
+			}
+		}
+		if nEnf > vis {
+			for _, w := range next {
+				w.multiEj += nEnf - vis
+			}
+		}
+	}
 	h.worlds = next
 	h.lastProc = t
 	var d []string
@@ -1508,6 +1646,16 @@ func (h *c40H) update(c *c40Cfg) {
 	h.cfgInFlight = true
 	err := h.b.UpdateClientConnState(balancer.ClientConnState{ResolverState: resolver.State{Endpoints: eps}, BalancerConfig: lb})
 	h.cfgInFlight = false
+	// When UpdateClientConnState has returned, the picker the parent holds
+	// counts calls iff the new config is not a no-op (A50: "the picker ... if
+	// both fields are unset does not count"); whatever was published during the
+	// update ended with a picker built for the new config or left an equivalent one.
+	if n := len(h.pickers); n > 0 {
+		h.pickers[n-1] = 1
+		if c.noop() {
+			h.pickers[n-1] = 0
+		}
+	}
 	e.Logf("config done err=%v", err)
 }
 
@@ -1545,7 +1693,7 @@ func (h *c40H) call(c c40Call) {
 				return
 			}
 			h.e.Logf("done %s inc=%d ok=%v picker#%d", addr, fsc.inc, ok, pi)
-			h.dones = append(h.dones, c40Done{t: h.now(), inc: fsc.inc, ok: ok, counted: h.pickers[pi]})
+			h.dones = append(h.dones, c40Done{t: h.now(), inc: fsc.inc, ok: ok, pi: pi})
 			var derr error
 			if !ok {
 				derr = errors.New("wlx: call failed")
